@@ -140,8 +140,26 @@ func gen(t *rapid.T) Case {
 		c.Prefix = rapid.IntRange(1, 6).Draw(t, "prefix")
 	}
 	c.Caps = rapid.SampledFrom([]int{0, 0, 0, 1, 2, 3}).Draw(t, "caps")
+	// at most one stopwatch built from a GIVEN start time (tally.NewStopwatch): D ns before now
+	// (negative: in the future), so that the elapsed time, of either sign, lies next to a bound
+	swatAt := -1
+	if rapid.IntRange(0, 2).Draw(t, "swat?") == 0 {
+		swatAt = rapid.IntRange(0, 23).Draw(t, "swatAt")
+	}
 	nops := rapid.IntRange(1, 24).Draw(t, "nops")
 	for i := 0; i < nops; i++ {
+		if i == swatAt || (swatAt >= nops && i == nops-1) {
+			off := rapid.SampledFrom([]int64{int64(time.Hour), -int64(time.Hour), int64(90 * time.Minute), -int64(90 * time.Minute), int64(time.Second), -int64(time.Second)}).Draw(t, "swatOff")
+			if len(db) > 0 && rapid.Bool().Draw(t, "swatNearBound") {
+				b := db[rapid.IntRange(0, len(db)-1).Draw(t, "swatB")]
+				if b > math.MinInt64/2 && b < math.MaxInt64/2 {
+					off = b + rapid.SampledFrom([]int64{int64(time.Second), -int64(time.Second)}).Draw(t, "swatDelta")
+				}
+			}
+			c.Ops = append(c.Ops, Op{K: "swat", D: off})
+			swatAt = -1
+			continue
+		}
 		k := rapid.IntRange(0, 12).Draw(t, "opk")
 		switch {
 		case k == 0:
@@ -320,6 +338,8 @@ func run(c Case) (pbt.Outcome, error) {
 	wantD := map[time.Duration]int64{}
 	var finite, nans int64
 	boundary := false
+	flexN := 0
+	var flexLo, flexHi time.Duration
 	nonFiniteHigh := false
 	stopwatches := false
 	for _, op := range c.Ops {
@@ -366,6 +386,20 @@ func run(c Case) (pbt.Outcome, error) {
 		case "sw":
 			if !isDur {
 				h.Start().Stop()
+				stopwatches = true
+			}
+		case "swat":
+			if r, ok := h.(tally.StopwatchRecorder); ok && flexN == 0 {
+				t0 := time.Now()
+				sw := tally.NewStopwatch(t0.Add(-time.Duration(op.D)), r)
+				sw.Stop()
+				t1 := time.Now()
+				if isDur {
+					// elapsed = now - start lies within [D, D + (t1-t0)]
+					flexN = 1
+					flexLo = model.DurationBucketOf(dpairs, time.Duration(op.D))
+					flexHi = model.DurationBucketOf(dpairs, time.Duration(op.D)+t1.Sub(t0))
+				}
 				stopwatches = true
 			}
 		case "report":
@@ -513,6 +547,21 @@ func run(c Case) (pbt.Outcome, error) {
 	}
 
 	// ---- compare counts
+	if isDur && flexN == 1 {
+		// the one stopwatch sample: in a bucket whose upper bound lies between those of the two ends
+		// of the interval its elapsed time is known to lie in
+		placed := false
+		for _, p := range dpairs {
+			if p.Hi >= flexLo && p.Hi <= flexHi && gotD[p.Hi] == wantD[p.Hi]+1 && !placed {
+				wantD[p.Hi]++
+				finite++
+				placed = true
+			}
+		}
+		if !placed {
+			errs.Addf("the sample of a stopwatch whose elapsed time lay in a bucket with upper bound in [%v,%v] was not delivered there (got %v, other samples %v)", flexLo, flexHi, gotD, wantD)
+		}
+	}
 	if isDur {
 		for k, w := range wantD {
 			if gotD[k] != w {
